@@ -48,7 +48,7 @@ def finish(ctx):
 
 def generate(ctx):
     rng = ctx.rng
-    n = ctx.scaled({"quick": 12000, "thorough": 400000}[ctx.tier])
+    n = ctx.scaled({"quick": 12000, "thorough": 200000}[ctx.tier])
     for i in range(n):
         yield {"kind": ["collective", "histogram", "rebin", "combine"][i % 4], "rseed": int(rng.integers(0, 2**31)), "i": i}
 
